@@ -410,6 +410,30 @@ Theorem C03b_roundtrip_union_unforced_partial : forall tblb TBL L o tag attrs ch
 Proof. exact roundtrip_union_choice. Qed.
 Print Assumptions C03b_roundtrip_union_unforced_partial.
 
+(* ... and with the public-id field as wbxmlenc exports it for the union (C06_encoder_public_id_field_union,
+   Proofs/EncWbxmlUnionPub.v): the same statement with NO hypothesis about the abstract document *)
+Theorem C03b_roundtrip_union_unforced : forall tblb TBL L o tag attrs ch bs forced,
+  let e := EncWbxml.enc_env (EncWbxmlDenote2.to_blang L) o in
+  EncWbxmlDenote2.vals_ok L = true -> EncWbxmlUnion.side_u L = true -> EncWbxmlAbs5.tag_tbl_ok e = true ->
+  EncWbxmlDenote6.tree_ok6 L (EncWbxmlUnion.aok_u L) (EncWbxmlUnion.tok_u L (EncWbxml.o_keep_ws o)) (EncWbxmlUnion.cok_plain L)
+                           (EncWbxmlUnion.eok_plain tblb e L) (EncWbxml.is_syncml (EncWbxml.e_lang e)) 0 true None (EncWbxml.NElt tag attrs ch) = true ->
+  find (fun x => l_id x =? l_id L) TBL = Some L -> lang_choiceW TBL L e forced ->
+  EncWbxml.o_version o < 4 -> EncWbxml.header_public_id e < 4294967296 -> EncWbxml.header_public_id e <> 0 ->
+  (match EncWbxmlAbs.header_pid e with Some p => EncWbxmlDenote2.okb p = true | None => True end) ->
+  EncWbxml.len bs < 4294967296 ->
+  EncWbxml.enc_wbxml tblb (EncWbxmlDenote2.to_blang L) o [EncWbxml.NElt tag attrs ch] = EncWbxml.EOk bs ->
+  no_data (EncWbxmlClass6.doc_events6 tblb L e (EncWbxmlUnion.acan_u L) (EncWbxmlUnion.tev_u L e (EncWbxml.o_keep_ws o)) (EncWbxml.NElt tag attrs ch)) = true ->
+  forall ef, tree_from_wbxml TBL forced 0 ef bs = BOk (mk_wtree (l_id L) 106 (hd_error (tn_union tblb L o (EncWbxml.NElt tag attrs ch)))).
+Proof. exact roundtrip_union_unforced. Qed.
+Print Assumptions C03b_roundtrip_union_unforced.
+
+(* the embedded-document outcome of C03b_data_element_by_type in terms of wbxml_tree_from_wbxml on the payload: language not forced,
+   the OUTER document's charset as meta charset *)
+Theorem C03b_data_element_embedded_tree : forall tbl lv' cs b tr, tree_from_wbxml tbl 0 cs lv' b = BOk tr ->
+  TreeBuildData.chars_node tbl (S lv') cs D_WBXML b = Some [TSub (wt_lang tr) (wt_charset tr) (wt_root tr)].
+Proof. exact TreeBuildData.chars_node_embedded. Qed.
+Print Assumptions C03b_data_element_embedded_tree.
+
 (* through <Data> by computation: vObject data under Add/Item/Data - the CDATA node is re-created; the tree the C model builds from the
    encoder's bytes is the tree bis computes *)
 Definition exd_L : lang := nth 19 main_table (mk_lang 0 0 None None None None None None None None).
